@@ -327,8 +327,10 @@ def gen_case(rng, spawner='POPEN'):
             # a start-up limit AND a (generous) run-time limit: the process
             # outlives the start-up limit, which ended when it reported
             t = cands[0]
-            t.update({'ending': 'ok', 'code': 0, 'dur': 2.0,
-                      'startup_limit': 1.5, 'timeout': 9.0,
+            # (limits in seconds are wall clock inside the executor: wide
+            # enough that a loaded machine does not deliver the report late)
+            t.update({'ending': 'ok', 'code': 0, 'dur': 4.0,
+                      'startup_limit': 3.0, 'timeout': 15.0,
                       'timeout_generous': True})
         # a later task with a run-time limit which does not end on its own
         tasks.append({'uid': 't.%d' % len(tasks), 'ending': 'hang', 'dur': 0,
@@ -627,7 +629,7 @@ class ExecSim(object):
                         # on a loaded machine the report may come too late:
                         # the executor then enforces the limit, rightly
                         lim = self.specs[u].get('startup_limit', 3.0)
-                        if time.time() - self.spawned_at.get(u, 0) > 0.5 * lim:
+                        if time.time() - self.spawned_at.get(u, 0) > 0.3 * lim:
                             self.startup_late.add(u)
                         self.env.publish(rpc.CONTROL_PUBSUB,
                                          {'cmd': 'task_startup_done',
